@@ -263,10 +263,7 @@ func TestVerifC03Dec(t *testing.T) {
 		// ---- damaged variants (decoder model on malformed input)
 		// (files with old-format zset scores are left out: the model covers only
 		// integer / inf / nan score strings, a damaged digit may still parse in Go)
-		// files with streams are left out as well: a damaged listpack element byte 0xF5..0xFF makes
-		// Listpack.Next return without advancing, and the stream expansion's integer-driven loops then
-		// never end (observed: hang + unbounded memory; a C04 matter, reported in the C03 notes)
-		if i%3 == 0 && len(o.File) > 10 && !strings.Contains(descs[i], " zs1 ") && !strings.Contains(descs[i], " stream ") {
+		if i%3 == 0 && len(o.File) > 10 && !strings.Contains(descs[i], " zs1 ") {
 			d := append([]byte{}, o.File...)
 			switch r.Intn(3) {
 			case 0:
